@@ -167,7 +167,7 @@ func replayDiff(raw json.RawMessage) *failure {
 
 func init() { replayers["c17"] = replayDiff }
 
-const ruleC17 = "rapid state machine over the surface both clients implement: table management (CreateTable with generated schemas and 0-2 indexes, AddIndex, DeleteIndex, DescribeTable, ClearTable, DeleteTable), single-item operations with generated conditions and updates (including failing ones: malformed keys, refused conditions, ill-typed updates, token-mutated expressions), Query / Scan with filters, Limits and ExclusiveStartKey continuation, BatchWrite, TransactWrite and failure toggles, translated to each SDK's request types. Oracle: differential, no reference model - after every abstract step the normalised responses (error class, items in order, counts, LastEvaluatedKey, unprocessed sets, table descriptions with per-index counts) of the v1 and the v2 client are equal and so are the canonical dumps of their internal tables. Non-trivial = history with >= 1 failing step and >= 1 read returning >= 2 items; distinct = hash of the operation list."
+const ruleC17 = "rapid state machine over the surface both clients implement: table management (CreateTable with generated schemas and 0-2 indexes, AddIndex, DeleteIndex, DescribeTable, ClearTable, DeleteTable), single-item operations with generated conditions and updates (including failing ones: malformed keys, refused conditions, ill-typed updates, token-mutated expressions), Query / Scan with filters, Limits and ExclusiveStartKey continuation, BatchWrite, TransactWrite and failure toggles, translated to each SDK's request types. Oracle: differential, no reference model - after every abstract step the normalised responses (error class, items in order, counts, LastEvaluatedKey, unprocessed sets, table descriptions with per-index counts) of the v1 and the v2 client are equal and so are the canonical dumps of their internal tables. Refused UpdateTable calls (index name taken, sort key attribute undefined) that carry attribute definitions are among the steps. Non-trivial = history with >= 1 failing step and >= 1 read returning >= 2 items; distinct = hash of the operation list."
 
 // TestC17 decides property C17.
 func TestC17(t *testing.T) {
@@ -467,7 +467,7 @@ func drawLifecycleSchema(rt *rapid.T, name string) model.Schema {
 	return s
 }
 
-const ruleC18 = "rapid state machine over two independent clients of each SDK and up to three table names: CreateTable with generated configurations (billing modes, S/N/B key schemas, 0-3 global/local indexes, tables reusing attribute names with different declared types, and invalid ones: missing attribute definition, no hash key, empty index lists, missing provisioned throughput), the AddTable helper, DeleteTable, UpdateTable index creation / deletion, ClearTable, DescribeTable, interleaved with Put / Delete / Scan on every table; reference catalogue model per client: ResourceInUse on duplicate create, ResourceNotFound on a missing table or index, a new table is empty with the declared schema and indexes, descriptions report current item and per-index counts; after every step every table of every client is scanned (and every index read) and compared, so cross-table and cross-client leakage and resurrected contents are visible. One case in twenty also grows a table's index set to DynamoDB's quotas (1-5 local indexes, global indexes up to 20, the later ones created on the existing table), every creation being required to succeed and DescribeTable to list them all. Non-trivial = history with a delete-then-recreate of a non-empty table, or operations on >= 2 tables and both clients; distinct = hash of the step list."
+const ruleC18 = "rapid state machine over two independent clients of each SDK and up to three table names: CreateTable with generated configurations (billing modes, S/N/B key schemas, 0-3 global/local indexes, tables reusing attribute names with different declared types, and invalid ones: missing attribute definition, no hash key, empty index lists, missing provisioned throughput), the AddTable helper, DeleteTable, UpdateTable index creation / deletion, ClearTable, DescribeTable, interleaved with Put / Delete / Scan on every table; reference catalogue model per client: ResourceInUse on duplicate create, ResourceNotFound on a missing table or index, a new table is empty with the declared schema and indexes, descriptions report current item and per-index counts; after every step every table of every client is scanned (and every index read) and compared, so cross-table and cross-client leakage and resurrected contents are visible. One case in twenty also grows a table's index set to DynamoDB's quotas (1-5 local indexes, global indexes up to 20, the later ones created on the existing table), every creation being required to succeed and DescribeTable to list them all. Index names include ones whose order depends on letter case; a not-found / in-use error of the v2 client must be the SDK error type. Non-trivial = history with a delete-then-recreate of a non-empty table, or operations on >= 2 tables and both clients; distinct = hash of the step list."
 
 // TestC18 decides property C18.
 func TestC18(t *testing.T) {
